@@ -18,7 +18,7 @@ TInit == k \in 1..Len(Traces) /\ l = 1 /\ bad = FALSE /\ Init
 ForThisRun == Traces[k].v4 = V4
 
 \* ParseFail has no observable event of its own: the loop's next ReadFrom call shows it
-FailThenCall(lp) == /\ pc[lp] = "parse" /\ cur[lp].kind \in {"undec", "empty"} /\ ~StopOnParseError
+FailThenCall(lp) == /\ pc[lp] = "parse" /\ Skipped(cur[lp]) /\ ~StopOnParseError
                     /\ pc' = [pc EXCEPT ![lp] = "blocked"]
                     /\ UNCHANGED <<net, narr, cur, reads, spawned, closed, ret>>
 
